@@ -7,6 +7,7 @@ from .. import common
 from . import c01_term
 from . import c01_ext
 from . import c01_opnd
+from . import c01_assume
 
 PASS_CAP = 40
 PASSES_RE = re.compile(rb"^\s*(\d+) pass(?:es)?\s*$", re.M)
@@ -630,7 +631,18 @@ def run(args):
         dist["operand_positions"] = op["dist"]
         dist["operand_positions_wall_s"] = round(time.time() - t_op, 2)
         samples += op["samples"]
-    total = nB + nC + dist["corpus_extra_pass"] + tp["evaluations"] + xp["evaluations"] + op["evaluations"]
+        # ---- per-pass state set by statements: ASSUME registers / ON-OFF switches, operands in front of the first and behind
+        #      the last ASSUME, one-pass vs multi-pass arrangements (vlib/props/c01_assume.py, driver mode c01a)
+        t_as = time.time()
+        ap = c01_assume.run_part(args, bdir, wd)
+        spec_fail += ap["spec_fail"]
+        corr_fail += ap["corr_fail"]
+        proof_problems += ap["problems"]
+        distinct |= ap["distinct"]
+        dist["assumptions"] = ap["dist"]
+        dist["assumptions_wall_s"] = round(time.time() - t_as, 2)
+        samples += ap["samples"]
+    total = nB + nC + dist["corpus_extra_pass"] + tp["evaluations"] + xp["evaluations"] + op["evaluations"] + ap["evaluations"]
     res.coverage = common.proof_coverage(audit, "C01", [
         "hook H1 in as.c (pass cap, forced extra pass) - guarded by ASL_VERIF",
         "correspondence: real asl vs Model.Pass on 6502 (direct/absolute choice) and 68000 (padding) programs",
@@ -639,13 +651,15 @@ def run(args):
         "correspondence: real asl vs Model.Pass2 (EQU expressions, pass count, reject in pass 2) on 6502 and 68000; listing parser for line addresses and symbol values (python harness)",
         "correspondence: real asl vs Model.PassPhase (PHASE/DEPHASE, BRA/Bcc/BSR size selection incl. the label behind a BSR) on 6502 and 68000, vs Model.Sym (sections, FORWARD/PUBLIC/GLOBAL) on 6502/Z80",
         "resolution oracle for PHASE blocks / near branches / sections: marker bytes + per-target mini decoders (python harness); the binding of every reference in a section tree is computed by Spec.Scope.judge (driver mode c01x S)",
-        "operand positions: the address every field stands for is computed by the Lean SPEC decoders Spec/OperandPos.lean (written from the processor manuals; driver mode c01o D) from the real instruction bytes; the python harness only locates the marker bytes and compares with the label's address; correspondence real asl vs Model/M68kOpnd.encode (RelPos / extension-word layout of code68k.c) on the 68000 family, vs Model/M6809Pcr.encode (n,PCR behind prebytes / immediate bytes, code6809.c) and vs Model/M740Bbs.encode (BBC/BBS and InsNOP, code65.c)"])
+        "operand positions: the address every field stands for is computed by the Lean SPEC decoders Spec/OperandPos.lean (written from the processor manuals; driver mode c01o D) from the real instruction bytes; the python harness only locates the marker bytes and compares with the label's address; correspondence real asl vs Model/M68kOpnd.encode (RelPos / extension-word layout of code68k.c) on the 68000 family, vs Model/M6809Pcr.encode (n,PCR behind prebytes / immediate bytes, code6809.c) and vs Model/M740Bbs.encode (BBC/BBS and InsNOP, code65.c)",
+        "assumptions: the address an operand denotes under the ASSUME in force at its line is computed by the Lean SPEC Spec/AssumePos.lean (manual's ASSUME section + processor manuals; driver mode c01a J) from the real instruction bytes, likewise the value every ASSUMEDVAL / switch-symbol probe must show; the python harness locates markers, cuts data items and compares the code files of the one-pass and multi-pass arrangements; correspondence real asl vs Model/PassAssume.assemble with the per-pass reset (c01a P) on 6809 / 65CE02 / 68HC12X; the list of registers and switches is cross-checked against Generated/GenState.lean"])
     res.coverage.update(evaluations=total, distinct_nontrivial=len(distinct),
-                        rule="(B) random label/reference/filler programs in the model's statement language rendered for 6502 and 68000, filler sizes around the 255/256 threshold; (C) programs over 6502/6809/68HC11/68000/8086 with marker bytes after each label and before each reference, distances around 127/128/255/256, each assembled normally and with one forced extra pass; (corpus) golden sources with a forced extra pass; (EQU) forward/backward/reordered EQU chains of length 0..12 with offsets and the PC symbol, mixed label/EQU/use programs, zero-page threshold shapes and operands falling with a rising label, on 6502 and 68000, compared in status, pass count, end address, operands, symbol values and checked against Spec.Pass2; distinct by program text, non-trivial = at least one EQU over another symbol; (PHASE/near/sections, see vlib/props/c01_ext.py) abstract programs with nested PHASE blocks and BRA/Bcc/BSR at distances 0,2,.. compared with Model.PassPhase, marker programs over six targets with PHASE blocks and references next to their labels, every near form x gap x direction x plain/PHASE enumerated, section trees with FORWARD/PUBLIC/GLOBAL and same-named symbols on several levels judged by Spec.Scope (binding) and compared with Model.Sym, each with a forced extra pass; (operand positions, see vlib/props/c01_opnd.py) marker programs over 68000/68010/68332/68340/68020/68030/68040, 6809/6309, 68HC11, 65C02, MELPS 740, 65C19, 8086/V35, Z80 whose references go through operands that do not directly follow the operation code (immediate / register-mask / command / bit-field words, prebytes, prefixes, postbytes, mask bytes), PC-relative (d16, d8+index, 16/32-bit base displacement, memory indirect; n,PCR; rel8 behind operand bytes) and absolute, forward / backward / next to the label / beyond the 16-bit range / inside PHASE blocks, judged by the Lean SPEC decoder and compared with Model.M68kOpnd / Model.M6809Pcr / Model.M740Bbs, each with a forced extra pass, plus one systematic program per CPU (every instruction class x operand form x direction)",
+                        rule="(B) random label/reference/filler programs in the model's statement language rendered for 6502 and 68000, filler sizes around the 255/256 threshold; (C) programs over 6502/6809/68HC11/68000/8086 with marker bytes after each label and before each reference, distances around 127/128/255/256, each assembled normally and with one forced extra pass; (corpus) golden sources with a forced extra pass; (EQU) forward/backward/reordered EQU chains of length 0..12 with offsets and the PC symbol, mixed label/EQU/use programs, zero-page threshold shapes and operands falling with a rising label, on 6502 and 68000, compared in status, pass count, end address, operands, symbol values and checked against Spec.Pass2; distinct by program text, non-trivial = at least one EQU over another symbol; (PHASE/near/sections, see vlib/props/c01_ext.py) abstract programs with nested PHASE blocks and BRA/Bcc/BSR at distances 0,2,.. compared with Model.PassPhase, marker programs over six targets with PHASE blocks and references next to their labels, every near form x gap x direction x plain/PHASE enumerated, section trees with FORWARD/PUBLIC/GLOBAL and same-named symbols on several levels judged by Spec.Scope (binding) and compared with Model.Sym, each with a forced extra pass; (operand positions, see vlib/props/c01_opnd.py) marker programs over 68000/68010/68332/68340/68020/68030/68040, 6809/6309, 68HC11, 65C02, MELPS 740, 65C19, 8086/V35, Z80 whose references go through operands that do not directly follow the operation code (immediate / register-mask / command / bit-field words, prebytes, prefixes, postbytes, mask bytes), PC-relative (d16, d8+index, 16/32-bit base displacement, memory indirect; n,PCR; rel8 behind operand bytes) and absolute, forward / backward / next to the label / beyond the 16-bit range / inside PHASE blocks, judged by the Lean SPEC decoder and compared with Model.M68kOpnd / Model.M6809Pcr / Model.M740Bbs, each with a forced extra pass, plus one systematic program per CPU (every instruction class x operand form x direction); (assumptions, see vlib/props/c01_assume.py) abstract label / page-rule reference / filler / ASSUME programs on 6809, 65CE02, 68HC12X against Model.PassAssume, marker programs on 6809/6309/65CE02/68HC12X/65816/MELPS 7700/80C166/80C167/8086/V35 (segment assumptions, override prefixes) with operands in front of the first, between and behind the last ASSUME in five arrangements (variables first = one pass, plus forward reference, variables behind the code, forced extra passes) whose code files must agree and whose operands must denote the variable under the assumption in force at their line (Spec.AssumePos), ASSUMEDVAL / switch-symbol probe programs for every ASSUME register of 38 target configurations and 25 ON/OFF switch configurations in four arrangements",
                         samples=samples, distribution=dist)
     res.assumptions = ["termination is decided by search under a cap of %d passes for value-dependent sizes (theorems: C01_term_const_sizes / C01_term_backward prove it for value-independent sizes and for programs without forward reference; C01_oscillation_example disproves it in general; C01_fixpoint_at_exit(_equ) is conditional on loop exit)" % PASS_CAP,
                        "EQU part: operands are kept inside the range of their data word in every pass (range errors are outside Model.Pass2), each symbol is defined once, SET is not modelled",
-                       "mini decoders cover only the instruction forms the generator emits"]
+                       "mini decoders cover only the instruction forms the generator emits",
+                       "assumptions part: `ASSUME reg:NOTHING` is not generated (documented for the 8086 and ST6 only; on the 8086 it is), 65816 direct pages are kept below $FF00 (no wrap at the end of bank 0), the default of a register is judged only where the manual states one (elsewhere the arrangements must agree with each other), PACKING (AVR) is not probed because it changes the layout of the probing DATA statement itself"]
     return common.conclude(res, proof_problems, spec_fail, corr_fail, total)
 
 
@@ -659,11 +673,18 @@ def replay(args):
             f = os.path.join(wd, "r.asm")
             open(f, "w").write(d["source"])
             flags = str(d.get("flags") or "").split()
-            rc, so, se = common.run_tool(bdir, "asl", flags + [f], wd, env={"ASL_VERIF_MAX_PASSES": str(PASS_CAP)}, timeout=60)
-            print("asl", " ".join(flags), "rc =", rc, so.decode(errors="replace")[-400:])
+            env = {"ASL_VERIF_MAX_PASSES": str(PASS_CAP)}
+            m_env = re.match(r"(ASL_VERIF_EXTRA_PASSES)=(\d+)$", str(d.get("env") or ""))
+            if m_env:
+                env[m_env.group(1)] = m_env.group(2)      # the arrangement "with forced extra passes" (hook H1)
+            rc, so, se = common.run_tool(bdir, "asl", flags + [f], wd, env=env, timeout=60)
+            print("asl", " ".join(flags), str(d.get("env") or ""), "rc =", rc, so.decode(errors="replace")[-400:])
             for key, mode in (("model_request", "c01x"), ("spec_request", "c01x")):
                 if key in d and str(d[key])[:2] in ("P ", "S "):
                     print(key, "->", common.driver(mode, [d[key]])[0][:600])
                 elif key in d and str(d[key])[:2] in ("D ", "M "):
                     print(key, "->", common.driver("c01o", [d[key]])[0][:600])
+            for key in ("model_request_c01a", "spec_request_c01a"):
+                if key in d:
+                    print(key, "->", common.driver("c01a", [d[key]])[0][:600])
     return 0
